@@ -202,6 +202,14 @@ Definition new_slice (s : st) (elemT : Z) (cells : list value) : st * value :=
   let (s2, h) := alloc s1 (HSlice elemT arr 0 (zlen cells) (zlen cells)) in
   (s2, refV (fn_sliceType elemT) h).
 
+(* call (vm.go): the value handed to the variadic parameter.  No surplus arguments (nVarArgs == 0): the
+   NIL slice of the declared variadic type, Value{t: ft.VariadicType}: nothing is allocated, the heap is
+   unchanged.  Otherwise NewSlice(ft.VariadicType.value(), varArgs): a new slice of the element type
+   whose cells are the surplus arguments assigned to it, in order. *)
+Definition variadic_arg (s : st) (vtype : Z) (nVar : Z) (vargs : list value) : st * value :=
+  if nVar =? 0 then (s, mkValue vtype (Zn 0) PNone)
+  else let e := Type_value vtype in new_slice s e (map (fun a => Value_assign a e) vargs).
+
 Section Exec.
   (* capacity chosen by Go's append when it must reallocate: an oracle (old cap, needed len) -> new cap *)
   Variable grow : Z -> Z -> Z.
@@ -759,15 +767,14 @@ Section Exec.
             end
           else CErr (RUnmod "native function")
       | Some (HFunc nargs nrets variadic vtype nslots types body) =>
-          (* call: pack surplus arguments of a variadic function *)
+          (* call: pack surplus arguments of a variadic function (none: the nil slice of the variadic type) *)
           let packed :=
             if variadic && pack then
               let nVar := xArgs - nargs + 1 in
               if nVar <? 0 then inr (RFail "runtime error" pos s) else
               match popn (Z.to_nat nVar) ops [] with
               | Some (vargs, rest) =>
-                  let e := Type_value vtype in
-                  let (s1, sv) := new_slice s e (map (fun a => Value_assign a e) vargs) in
+                  let (s1, sv) := variadic_arg s vtype nVar vargs in
                   inl (sv :: rest, xArgs - nVar + 1, s1)
               | None => inr (RStuck "variadic arguments")
               end
